@@ -492,6 +492,11 @@ func GenTrip(rng *rand.Rand, thorough bool, emit func(*Sx)) {
 					cfg := fullCfg(false)
 					sc := Script{}
 					calls := []TripCall{}
+					if site > 0 && n%2 == 0 {
+						// the first EHLO is refused with 502: the client falls back to HELO, and the
+						// backend's errors must reach it all the same
+						sc.NS = []BErr{BSmtp(502, [3]int{5, 5, 1}, "no EHLO today")}
+					}
 					switch site {
 					case 0:
 						sc.NS = []BErr{e}
@@ -553,6 +558,42 @@ func GenTrip(rng *rand.Rand, thorough bool, emit func(*Sx)) {
 				calls = append(calls, TripCall{Kind: "noop"}, TripCall{Kind: "quit"})
 				emit(RunTrip(TripCase{Cfg: cfg, Script: sc, LMTP: true, Calls: calls, Extra: []*Sx{L(A("focus"), A("C18"))}}))
 			}
+		}
+	}
+	// one connection, several transactions, each finished through a different entry point
+	kinds := []struct {
+		kind string
+		cb   bool
+	}{{"lmtpdata", true}, {"lmtpdata", false}, {"data", false}}
+	for ntx := 2; ntx <= 3; ntx++ {
+		total := 1
+		for i := 0; i < ntx; i++ {
+			total *= 3
+		}
+		for pat := 0; pat < total; pat++ {
+			cfg := fullCfg(true)
+			cfg.LMTPSession = true
+			sc := Script{}
+			var calls []TripCall
+			x := pat
+			for t := 0; t < ntx; t++ {
+				k := kinds[x%3]
+				x /= 3
+				calls = append(calls, TripCall{Kind: "mail", Arg: fmt.Sprintf("s%d@x", t)})
+				p := DefaultPlan()
+				for i := 0; i < 2; i++ {
+					addr := fmt.Sprintf("m%dr%d@x", t, i)
+					sc.Rcpt = append(sc.Rcpt, BNil)
+					if (i+t+pat)%2 == 0 {
+						p.Status = append(p.Status, StatusCall{Addr: addr, Err: BSmtp(550, [3]int{5, 1, 1}, "no "+addr)})
+					}
+					calls = append(calls, TripCall{Kind: "rcpt", Arg: addr})
+				}
+				sc.Data = append(sc.Data, p)
+				calls = append(calls, TripCall{Kind: k.kind, Parts: [][]byte{[]byte("msg\r\n")}, Callback: k.cb, Closes: 1})
+			}
+			calls = append(calls, TripCall{Kind: "noop"}, TripCall{Kind: "quit"})
+			emit(RunTrip(TripCase{Cfg: cfg, Script: sc, LMTP: true, Calls: calls, Extra: []*Sx{L(A("focus"), A("C18"))}}))
 		}
 	}
 	_ = strings.Repeat
